@@ -5,6 +5,7 @@ import (
 	"errors"
 	"fmt"
 	"math/big"
+	"time"
 
 	"github.com/google/go-tdx-guest/verify"
 
@@ -169,12 +170,14 @@ func runC05(r *mc.Run) {
 		ph := c.Choose("pck.header", 7)
 		opt := c.Choose("options", 3)
 		reason := []int{0, 1, 8, 6, 10}[c.Choose("entry.reason", 5)] // none, keyCompromise, removeFromCRL, certificateHold, aACompromise
+		// revocation date of the entries relative to the verification time: a listed certificate is revoked whenever its entry is dated
+		revAt := []time.Time{{}, world.T0, world.T0.Add(time.Second), world.T0.AddDate(0, 0, 14)}[c.Choose("entry.date", 4)]
 		id := "crl/" + c.ID()
 		if !r.Want(id) {
 			return
 		}
-		pckCrl := world.MakeCRL(world.CRLSpec{Issuer: pckSigners[psg].issuer, Signer: pckSigners[psg].key, Revoked: pckSets[ps].list, Reason: reason})
-		rootCrl := world.MakeCRL(world.CRLSpec{Issuer: rootSigners[rsg].issuer, Signer: rootSigners[rsg].key, Revoked: rootSets[rs].list, Reason: reason})
+		pckCrl := world.MakeCRL(world.CRLSpec{Issuer: pckSigners[psg].issuer, Signer: pckSigners[psg].key, Revoked: pckSets[ps].list, Reason: reason, RevokedAt: revAt})
+		rootCrl := world.MakeCRL(world.CRLSpec{Issuer: rootSigners[rsg].issuer, Signer: rootSigners[rsg].key, Revoked: rootSets[rs].list, Reason: reason, RevokedAt: revAt})
 		fPck := world.MakeCRL(world.CRLSpec{Issuer: F.Inter, Signer: F.InterKey})
 		fRoot := world.MakeCRL(world.CRLSpec{Issuer: F.Root, Signer: F.RootKey})
 		serve := func(kind string, own, other, f []byte, hdr map[string][]string) world.Response {
